@@ -29,6 +29,11 @@ func planFeatures(ps *rt.PlanSet) []string {
 				seen["arr2slice@build"] = true
 			}
 			walk(p.In, true)
+		case "val2ptr":
+			if p.In != nil && p.In.Op == "share" {
+				seen["val2ptr-of-share"] = true
+			}
+			walk(p.In, false)
 		case "slice":
 			walk(p.In, true)
 		case "struct":
